@@ -26,6 +26,18 @@ class SumKroneckerLinearOperator(SumLinearOperator):
         :`linear_ops`: List of two Kronecker lazy tensors
     """
 
+    def _mul_constant(
+        self: Float[LinearOperator, "*batch M N"], other: Union[float, torch.Tensor]
+    ) -> Float[LinearOperator, "*batch M N"]:
+        # The summands have to stay Kronecker products (solves, log determinants and roots use their factors):
+        # c (A \kron B) = (c A) \kron B
+        return self.__class__(
+            *[
+                KroneckerProductLinearOperator(lt.linear_ops[0]._mul_constant(other), *lt.linear_ops[1:])
+                for lt in self.linear_ops
+            ]
+        )
+
     @property
     def _sum_formulation(self):
         # where M = (C^{-1/2}AC^{-1/2} \kron D^{-1/2} B D^{-1/2} + I_|C| \kron I_|D|)
